@@ -104,7 +104,7 @@ class ServiceSystem:
     for k in self.kinds:
       path = None
       if k == 'sqlfile':
-        self._tmp = tempfile.mkdtemp(prefix='vfw-sqlfile-')
+        self._tmp = tempfile.mkdtemp(prefix='sqlfile-', dir=svc.scratch())
         path = os.path.join(self._tmp, 'v.db')
       self.bs.append(svc.Backend(k, path=path))
     self._empty = [b.snapshot() for b in self.bs]
@@ -181,6 +181,20 @@ class ServiceSystem:
         vios.append(self.v(clause, kind, pre, text, b.kind))
       for clause, text in invariants(post, self.studies):
         vios.append(self.v(clause, kind, pre, text, b.kind))
+    if len(self.bs) > 1 and self.cfg.get('differential', True):
+      for i in range(1, len(self.bs)):
+        who = '%s-vs-%s' % (self.bs[0].kind, self.bs[i].kind)
+        if outs[0][0] != outs[i][0]:
+          vios.append(self.v('backend-error-class', kind, pres[0], '%s: %s answers %s, %s answers %s' % (
+              kind, self.bs[0].kind, outs[0][0], self.bs[i].kind, outs[i][0]), who))
+        elif outs[0][1] != outs[i][1]:
+          vios.append(self.v('backend-response', kind, pres[0], '%s: responses differ: %s | %s' % (
+              kind, repr(outs[0][1])[:200], repr(outs[i][1])[:200]), who))
+        if posts[0] != posts[i]:
+          d0, d1 = dict(posts[0]), dict(posts[i])
+          part = [k for k in d0 if d0[k] != d1.get(k)]
+          vios.append(self.v('backend-state:' + '+'.join(part), kind, pres[0], 'stored state differs after %s in %s: %s | %s' % (
+              kind, part, repr([d0[k] for k in part])[:300], repr([d1[k] for k in part])[:300]), who))
     if self.model is not None:
       b, pre, post, (cls, view, raw) = self.bs[0], pres[0], posts[0], outs[0]
       try:
